@@ -261,6 +261,11 @@ pub fn run(run: &Run) {
         let st = run_scenario(run, &scn, 1_500_000);
         println!("  scenario {}: depth {} states {} transitions {}", name, st.depth_completed, st.states, st.transitions);
     }
+    // other genesis configurations (non-empty initial fee pool: the first proposer reward comes out of it)
+    for scn in genesis_scenarios(["custom02-genesis-sym-feepool-stake", "custom02-genesis-erg-fees-stakes", "custom02-genesis-huge-mel-feepool"], NetID::Custom02, &cfg, if thorough { 8 } else { 6 }) {
+        let st = run_scenario(run, &scn, 1_500_000);
+        println!("  scenario {}: depth {} states {} transitions {}", scn.name, st.depth_completed, st.states, st.transitions);
+    }
     // very large fees: the reward coin is exact even when (fee pool >> 16) + tips approaches or exceeds the maximum coin value
     {
         use crate::stf::*;
